@@ -2848,6 +2848,8 @@ func (r *Stack) Marshal(in ...any) (err error) {
 				r.stack = xs.stack
 			} else if xc.IsInit() {
 				err = errorf("Cannot Unmarshal Condition only; must envelope in Stack")
+			} else if err == nil {
+				err = errorf("Cannot marshal input; no Stack could be decoded")
 			}
 		} else if sc, _ := r.config(); sc.maf != nil {
 			// use the user-authored closure marshaler
@@ -2858,6 +2860,8 @@ func (r *Stack) Marshal(in ...any) (err error) {
 				r.Push(xs)
 			} else if xc.IsInit() {
 				r.Push(xc)
+			} else if err == nil {
+				err = errorf("Cannot marshal input; no Stack or Condition could be decoded")
 			}
 		}
 	}
